@@ -171,6 +171,8 @@ def addToImports (env : Env) (importQname : String) : G Unit := do
   if importQname == "" then throwG .valueError
   let parts := splitDot importQname
   if (parts.head? == some "builtins" && parts.length == 2) || importQname == "typing.Any" then return
+  -- names without a module path cannot be imported
+  if parts.length == 1 then return
   let s ← get
   let moduleId := replaceChar (getModuleId s true) '/' "."
   if !pyIn moduleId importQname then
@@ -249,6 +251,9 @@ def literalsOf : AType → List Lit
   | .literal ls => ls
   | _ => []
 
+/-- literal members are unique; `True` and `1` are different literals (structural equality of `Lit`) -/
+def dedupLits (l : List Lit) : List Lit := l.foldl (fun acc a => if acc.contains a then acc else acc ++ [a]) []
+
 def noneTypeName : String := Generated.noneTypeName
 
 def builtinName (n : String) : Option String := assocGet? Generated.builtinTypeNames n
@@ -286,7 +291,7 @@ def typeStr (env : Env) : AType → G String
       | c :: _ =>
         let s ← get
         if c == '_' && !s.imports.contains qname then addTodo "internal class as type"
-        pure name
+        pure (escapeKeyword name)
   | .final t => typeStr env t
   | .callable params ret => do
     let ps ← typeStrsNamed env "param_" 1 params
@@ -312,12 +317,13 @@ def typeStr (env : Env) : AType → G String
     else do
       if types.length ≥ 2 then addTodo "List"
       pure ("List<" ++ joinWith ", " types ++ ">")
-  | .namedSeq name _ ts => do
+  | .namedSeq name qname ts => do
     let types ← typeStrs env ts
-    if types.isEmpty then pure (name ++ "<Any>")
+    addToImports env qname
+    if types.isEmpty then pure (escapeKeyword name ++ "<Any>")
     else do
       if types.length ≥ 2 && (name == "Set" || name == "List") then addTodo name
-      pure (name ++ "<" ++ joinWith ", " types ++ ">")
+      pure (escapeKeyword name ++ "<" ++ joinWith ", " types ++ ">")
   | .unknown => do
     addTodo "unknown"
     pure "unknown"
@@ -327,7 +333,7 @@ def typeStr (env : Env) : AType → G String
     let hasNamedType := ts.any countsAsNamed
     -- 776-786: several literal members are merged into one, placed last
     if literalData.length ≥ 2 then
-      let merged := literalData.flatMap literalsOf
+      let merged := dedupLits (literalData.flatMap literalsOf)
       -- 788-798: a literal and None become `literal<…, null>`
       if otherData.length == 1 && otherData.any isNoneNamed then
         pure ("literal<" ++ joinWith ", " ((merged ++ [Lit.none]).map Lit.render) ++ ">")
@@ -495,26 +501,30 @@ def createParameterString (env : Env) (params : List Parameter) (indent : String
   if outs.isEmpty then pure ""
   else pure ("\n" ++ inner ++ joinWith (",\n" ++ inner) (outs.map ParamOut.render) ++ "\n" ++ indent)
 
-/-- `_create_result_string`; `none` = the early `return ""` on a `None` result -/
-def createResults (env : Env) : List Result → G (Option (List String))
-  | [] => pure (some [])
+/-- the rendered results `name: type` of `_create_result_string`, in order (untyped results and results
+    whose type renders empty are left out) -/
+def createResults (env : Env) : List Result → G (List String)
+  | [] => pure []
   | r :: rs =>
     match r.type with
     | none => createResults env rs
-    | some t =>
-      if isNoneNamed t then pure none
-      else do
-        let ts ← typeStr env t
-        let name := escapeKeyword (convertName r.name env.safe)
-        let rest ← createResults env rs
-        pure (rest.map fun l => if ts != "" then (name ++ ": " ++ ts) :: l else l)
+    | some t => do
+      let ts ← typeStr env t
+      let name := escapeKeyword (convertName r.name env.safe)
+      let rest ← createResults env rs
+      pure (if ts != "" then (name ++ ": " ++ ts) :: rest else rest)
 
+/-- `_create_result_string`: a function whose only result is `None` has no results -/
 def createResultString (env : Env) (results : List Result) : G String := do
-  match ← createResults env results with
-  | none => pure ""
-  | some [] => do addTodo "result without type"; pure ""
-  | some [r] => pure (" -> " ++ r)
-  | some rs => pure (" -> (" ++ joinWith ", " rs ++ ")")
+  let onlyNone := match results with
+    | [r] => (match r.type with | some t => isNoneNamed t | none => false)
+    | _ => false
+  if onlyNone then pure ""
+  else
+    match ← createResults env results with
+    | [] => do addTodo "result without type"; pure ""
+    | [r] => pure (" -> " ++ r)
+    | rs => pure (" -> (" ++ joinWith ", " rs ++ ")")
 
 /-! ### functions, properties, attributes, enums (375-531, 654-682) -/
 
@@ -601,7 +611,7 @@ def createClassAttributeString (env : Env) (attrs : List Attribute) (inner : Str
 /-- `_create_enum_string` -/
 def createEnumString (env : Env) (e : Enum) : String :=
   let docstring := sdsDocstring env.safe e.doc.description "" [] [] e.doc.examples
-  let signature := docstring ++ "enum " ++ e.name
+  let signature := docstring ++ "enum " ++ escapeKeyword e.name
   if e.instances.isEmpty then signature
   else
     signature ++ " {" ++ "\n" ++ String.join (e.instances.map fun i =>
@@ -670,7 +680,7 @@ def superclassesG (env : Env) (inline : String → G String) : List String → G
     if !isInternal name then do
       addToImports env sc
       let (names, text) ← superclassesG env inline scs
-      pure (name :: names, text)
+      pure (escapeKeyword name :: names, text)
     else do
       let t ← inline sc
       let (names, text) ← superclassesG env inline scs
@@ -706,7 +716,9 @@ def createClassString (env : Env) : Nat → Class → String → Bool → G Stri
       | none => []
     let varianceInfo ← (if !c.typeParams.isEmpty || !ctorTypeVars.isEmpty then do
         let items ← typeParamStrings env c.typeParams
-        let generics := ctorTypeVars.foldl (fun acc tv => if acc.contains tv.name then acc else acc ++ [tv.name]) items
+        let generics := ctorTypeVars.foldl (fun acc tv =>
+          let n := escapeKeyword (convertName tv.name env.safe)
+          if acc.contains n then acc else acc ++ [n]) items
         modify fun s => { s with classGenerics := generics }
         pure (if generics.isEmpty then "" else "<" ++ joinWith ", " generics ++ ">")
       else pure "" : G String)
@@ -757,14 +769,15 @@ def createImportsString (env : Env) : G String := do
   if s.imports.isEmpty then return ""
   let lines := s.imports.map fun imp =>
     let parts := splitDot imp
-    let from_ := escapeKeyword (convertName (joinWith "." (dropLast' parts)) env.safe)
+    let from_ := escapePath (convertName (joinWith "." (dropLast' parts)) env.safe)
     let name := escapeKeyword (convertName (lastD "" parts) env.safe)
     "from " ++ from_ ++ " import " ++ name
   pure ("\n" ++ joinWith "\n" (sortStrings lines) ++ "\n")
 
 def packageHeader (env : Env) (packageInfo : String) : String :=
   let camel := convertName packageInfo env.safe
-  (if packageInfo != camel then "@PythonModule(\"" ++ packageInfo ++ "\")\n" else "") ++ "package " ++ camel ++ "\n"
+  (if packageInfo != camel then "@PythonModule(\"" ++ packageInfo ++ "\")\n" else "")
+    ++ "package " ++ escapePath camel ++ "\n"
 
 def classFuel (env : Env) : Nat := env.api.classes.length + 64
 
